@@ -166,7 +166,12 @@ def eval_doc(src, props, extensions=()):
         fails, fine = positions.check_detailed(src, tokens)
         res["C05"] = ("fail" if fails else "pass", (",".join(fails) + "#" + h32(fine)) if fails else None, positions.nontrivial(tokens))
     if "C03" in props:
-        res["C03"] = c03_eval(src, tokens)
+        t3 = tokens
+        if "pyml" in src and "<!--" in src:
+            # C03's domain is "all extensions off": the pragma extension is on by default, so a document with
+            # a pragma line is parsed again with it disabled (the comment is then an ordinary HTML block)
+            t3, psig3, _ = guarded_parse(src, extensions, pragmas=False)
+        res["C03"] = c03_eval(src, t3) if t3 is not None else ("skip", "no-parse", False)
     return res
 
 
